@@ -15,6 +15,8 @@ THEOREMS = [
     (NS + "C11_no_keepalive_before_connected", "full"),
     (NS + "C11_hello_reply_once", "full"),
     (NS + "C11_short_hello_not_answered", "full"),
+    (NS + "C11_one_hello_per_connection", "full"),
+    (NS + "C11_hello_keeps_key", "full"),
     (NS + "C11_update_every_iteration", "full"),
     (NS + "C11_loop_never_stalls", "full"),
 ]
@@ -31,12 +33,14 @@ ASSUMPTIONS = [
     "(a hello is accepted only at the full padded datagram size - C14_clientHello_fixed_size - and the SERVER_HELLO is ~330 bytes); since "
     "repair 8599f81 the byte inequality is a theorem at the message level (C11_hello_reply_once: the queued reply is no longer than the hello "
     "it answers, both carried in the same 26-byte CRC framing; C11_short_hello_not_answered: otherwise nothing is queued and no key or token "
-    "is kept); its sum over a whole run (bytes sent to an unpromoted address <= bytes received from it) is what the monitor measures and is "
+    "is kept) and since repair 30a6fe7 a connection answers one hello only (C11_one_hello_per_connection, C11_hello_keeps_key: a reply is "
+    "queued only by a connection without a key, which has one afterwards and never loses it to a hello); its sum over a whole run (bytes sent to an unpromoted address <= bytes received from it) is what the monitor measures and is "
     "not a Lean theorem (partial)",
 ]
 RULE = ("the REAL server loop (see C10) with honest echo clients running throughout and hostile streams from many addresses: random bytes of "
         "every length 0..2000, valid headers with garbage bodies, truncated and complete hellos from strangers, everything also from "
-        "block-listed ips, damaged/stale/re-typed copies of genuine client datagrams with spoofed source address, at MTU 1500, 512 and the band "
+        "block-listed ips, damaged/stale/re-typed copies of genuine client datagrams with spoofed source address, peers that hold the session "
+        "key without answering the challenge and seal several hellos into one datagram, at MTU 1500, 512 and the band "
         "370..420 in which the padded hello is about as large as the server hello; "
         "compared with the model per iteration (events, sends, pools, entry drops); non-trivial = at least 10 hostile datagrams and one "
         "honest message delivered")
@@ -96,7 +100,8 @@ def run(ctx):
         try:
             lines, outs, recs, log = serverlib.gen_server_case(real, rng, cid, n_iter=rng.choice([40, 80]), n_clients=rng.choice([1, 2, 3]),
                                                                hostile=rng.choice([0.6, 0.85]), act_p=0.05, collide=0.1,
-                                                               mtu=rng.choice([1500, 1500, 512, 512, 370, 375, 380, 389, 390, 395, 400, 420]), block=block, silent=0.01, leave=0.02)
+                                                               mtu=rng.choice([1500, 1500, 512, 512, 370, 375, 380, 389, 390, 390, 391, 391, 392, 395, 400, 420]), block=block, silent=0.01, leave=0.02,
+                                                               stack=0.3)
         except Exception as e:           # the unmodified loop let an exception escape: that IS the property failing
             import traceback
             ctx.failure("server-loop-died", "an exception escaped the server loop: %s: %s" % (type(e).__name__, e),
